@@ -343,7 +343,7 @@ func isAmmoChan(ch ssa.Value, pr *provider) bool {
 }
 
 var c08LoopExceptions = map[string]string{
-	"(*components/providers/http/decoders.jsonlineDecoder).Scan": "the loop repeats only after a pass ended with ammoNum > 0, so the next Decode after the seek returns an entry or an error; the caller observes ctx between Scans",
+	"(*components/providers/http/decoders.jsonlineDecoder).Scan":  "the loop repeats only after a pass ended with ammoNum > 0, so the next Decode after the seek returns an entry or an error; the caller observes ctx between Scans",
 	"(*components/providers/http/decoders.protoDecoder).LoadAmmo": "bounded by the forced Passes=1: the scan function returns ErrPassLimit after one pass; uri/uripost/raw scans observe ctx themselves",
 }
 
